@@ -72,7 +72,22 @@ func c10lexeme(in string, x int, t c10tok) int {
 	return e.end - x
 }
 
+// c10parsers: a token parser is built once per worker process and used for every case that needs it - the way a
+// grammar value is defined once and used for many inputs. Nothing a trimmed parser learned from one input
+// (its reader, a whitespace run) may leak into the next parse.
+var c10parsers = map[string]parsley.Parser{}
+
 func c10parser(t c10tok) parsley.Parser {
+	key := fmt.Sprint(t.Kind, "|", t.Text, "|", t.Left, t.Right, t.Trim, t.Inner)
+	if p, ok := c10parsers[key]; ok {
+		return p
+	}
+	p := c10build(t)
+	c10parsers[key] = p
+	return p
+}
+
+func c10build(t c10tok) parsley.Parser {
 	var p parsley.Parser
 	switch t.Kind {
 	case "op":
@@ -207,6 +222,18 @@ func c10exec(j run.Job, a *run.Acc) {
 			pre[i] = r.Intn(20)
 		}
 		if !a.Begin() {
+			if a.Only >= 0 && a.CaseIdx() < a.Only {
+				// replay of a later case: the token parsers have been used by the earlier cases of the job
+				func() {
+					defer func() { recover() }()
+					var ps []parsley.Parser
+					for _, t := range toks {
+						ps = append(ps, c10parser(t))
+					}
+					f := text.NewFile("f", []byte(raw.String()))
+					parsley.Parse(parsley.NewContext(parsley.NewFileSet(f), text.NewReader(f)), combinator.Sentence(combinator.SeqOf(ps...)))
+				}()
+			}
 			continue
 		}
 		a.Count("cases", 1)
